@@ -58,7 +58,7 @@ def s_ifelse(X: FLOAT[3], c: BOOL) -> FLOAT[3]:
 
 @script(default_opset=op)
 def s_if_two(X: FLOAT[3], B: FLOAT[3]) -> (FLOAT[3], FLOAT[3]):
-    s = op.ReduceSum(X)
+    s = op.ReduceSum(X, keepdims=0)
     c = op.Greater(s, 0.0)
     if c:
         P = op.Add(X, B)
@@ -111,10 +111,10 @@ def s_for_iter(X: FLOAT[3], N: INT64) -> FLOAT[3]:
 @script(default_opset=op)
 def s_while(X: FLOAT[3]) -> FLOAT[3]:
     s = op.Identity(X)
-    cond = op.ReduceSum(s) < 100.0
+    cond = op.ReduceSum(s, keepdims=0) < 100.0
     while cond:
         s = op.Add(s, s) + 1.0
-        cond = op.ReduceSum(s) < 100.0
+        cond = op.ReduceSum(s, keepdims=0) < 100.0
     return s
 
 
@@ -123,7 +123,7 @@ def s_for_break(X: FLOAT[3], N: INT64) -> FLOAT[3]:
     s = op.Identity(X)
     for i in range(N):
         s = op.Add(s, s)
-        cond = op.ReduceSum(s) > 50.0
+        cond = op.ReduceSum(s, keepdims=0) > 50.0
         if cond:
             break
     return s
@@ -133,7 +133,7 @@ def s_for_break(X: FLOAT[3], N: INT64) -> FLOAT[3]:
 def s_if_in_loop(X: FLOAT[3], N: INT64) -> FLOAT[3]:
     acc = op.Identity(X)
     for i in range(N):
-        pos = op.ReduceSum(acc) > 0.0
+        pos = op.ReduceSum(acc, keepdims=0) > 0.0
         if pos:
             acc = op.Sub(acc, 2.0)
         else:
@@ -331,7 +331,10 @@ CONST_POOL = {
     "f:[3]": np.array([1.0, np.nan, -0.0], F),
     "f:[4]": np.array([1.0, 2.0, np.inf, 4.0], F),
     "f:[5]": np.array([1.0, 2.0, 3.0, 4.0, -5.0], F),
+    "f:[5x]": np.array([1.0, np.nan, -0.0, np.inf, -np.inf], F),
+    "f:[2x]": np.array([np.inf, -2.0], F),
     "f:[1,1]": np.array([[2.0]], F),
+    "i:[4]": np.array([1, -2, 3, -4], I),
     "i:2": np.array(2, I),
     "i:-1": np.array(-1, I),
     "i:0": np.array(0, I),
@@ -368,8 +371,8 @@ def _h(name, slots, feeds, tags=(), in_class=True):
     return deco
 
 
-_FS = ["f:2.5", "f:nan", "f:inf", "f:-inf", "f:-0.0", "f:-1", "f:1e-7", "f:[1]", "f:[2]", "f:[1,1]"]
-_FV5 = ["f:[5]", "f:[1]", "f:[3]", "f:[4]", "f:2.5", "f:nan"]   # broadcast against a [5] / [k,5] tensor? see h_vec
+_FS = ["f:2.5", "f:nan", "f:inf", "f:-inf", "f:-0.0", "f:-1", "f:1e-7", "f:[1]", "f:[2]", "f:[2x]", "f:[1,1]"]
+_FV5 = ["f:[5]", "f:[1]", "f:[2]", "f:[3]", "f:[4]", "f:[5x]", "f:2.5", "f:nan"]
 _IS = ["i:2", "i:-1", "i:0", "i:big", "i:[1]"]
 _X2 = [f32(1, -2), f32(0, 0), f32(-1.5, 40.0)]
 
@@ -398,7 +401,8 @@ def h_pow(ch):
         oh.make_node("Pow", ["base", "x"], ["p"]),
         oh.make_node("Pow", ["x", "e"], ["q"]),
         oh.make_node("Sub", ["x", "base"], ["s"]),
-        oh.make_node("Div", ["base", "x"], ["d"]),
+        oh.make_node("Div", ["base", "x"], ["d0"]),
+        oh.make_node("Identity", ["d0"], ["d"]),
     ]
     g = oh.make_graph(nodes, "g_pow", [vi("x", TP.FLOAT, [2])],
                       [vi("p", TP.FLOAT, None), vi("q", TP.FLOAT, None), vi("s", TP.FLOAT, None), vi("d", TP.FLOAT, None)],
@@ -406,18 +410,21 @@ def h_pow(ch):
     return model(g)
 
 
-@_h("h_vec", {"w": ("f:[5]", _FV5), "idx": ("i:[5]", ["i:[5]", "i:[1]", "i:0"])},
+@_h("h_vec", {"w": ("f:[5]", _FV5), "idx": ("i:[5]", ["i:[5]", "i:[1]", "i:[4]", "i:0", "i:-1"])},
     [dict(x=np.arange(5, dtype=F)), dict(x=-np.ones(5, F)), dict(x=f32(0, 1e3, -1e3, 0.5, 2))], tags=("const", "init"))
 def h_vec(ch):
-    """1-D length-5 constants: too long to inline, long enough to be skipped by skip_initializers."""
+    """1-D constants of length 1..5: up to 4 elements are inlined by inline_const, more than 4 are left out by
+    skip_initializers."""
     cn, ci = _slot_nodes_inits(HELPERS["h_vec"]["slots"], ch)
     nodes = cn + [
-        oh.make_node("Mul", ["x", "w"], ["t"]),
+        oh.make_node("ReduceSum", ["x"], ["xs"], keepdims=1),
+        oh.make_node("Mul", ["xs", "w"], ["y"]),
         oh.make_node("Abs", ["idx"], ["ia"]),
         oh.make_node("Cast", ["ia"], ["fa"], to=TP.FLOAT),
-        oh.make_node("Add", ["t", "fa"], ["y"]),
+        oh.make_node("Add", ["xs", "fa"], ["y2"]),
     ]
-    g = oh.make_graph(nodes, "g_vec", [vi("x", TP.FLOAT, [5])], [vi("y", TP.FLOAT, None)], initializer=ci)
+    g = oh.make_graph(nodes, "g_vec", [vi("x", TP.FLOAT, [5])], [vi("y", TP.FLOAT, None), vi("y2", TP.FLOAT, None)],
+                      initializer=ci)
     return model(g)
 
 
@@ -433,7 +440,8 @@ def h_const_out(ch):
         oh.make_node("Mul", ["x", "r"], ["y"]),
     ]
     g = oh.make_graph(nodes, "g_const_out", [vi("x", TP.FLOAT, [2])],
-                      [vi("y", TP.FLOAT, None), vi("c", TP.FLOAT, None)], initializer=ci)
+                      [vi("y", TP.FLOAT, None), vi("c", TP.FLOAT, list(CONST_POOL[ch.get("c", ("f:2.5",))[0]].shape))],
+                      initializer=ci)
     return model(g)
 
 
@@ -475,10 +483,10 @@ def _for_body(prefix, carried=("a",), swap=False, with_iter=False):
     nodes = [oh.make_node("Identity", [prefix + "cin"], [prefix + "cout"])]
     outs = [vi(prefix + "cout", TP.BOOL, [])]
     for c in carried:
-        ins.append(vi(prefix + c + "_in", TP.FLOAT, None))
+        ins.append(vi(prefix + c + "_in", TP.FLOAT, [2]))
     if swap:
         a, b = carried
-        outs += [vi(prefix + b + "_in", TP.FLOAT, None), vi(prefix + a + "_in", TP.FLOAT, None)]
+        outs += [vi(prefix + b + "_in", TP.FLOAT, [2]), vi(prefix + a + "_in", TP.FLOAT, [2])]
     else:
         for c in carried:
             if with_iter:
@@ -486,7 +494,7 @@ def _for_body(prefix, carried=("a",), swap=False, with_iter=False):
                 nodes.append(oh.make_node("Add", [prefix + c + "_in", prefix + c + "_fi"], [prefix + c + "_out"]))
             else:
                 nodes.append(oh.make_node("Add", [prefix + c + "_in", "x"], [prefix + c + "_out"]))
-            outs.append(vi(prefix + c + "_out", TP.FLOAT, None))
+            outs.append(vi(prefix + c + "_out", TP.FLOAT, [2]))
     return oh.make_graph(nodes, prefix + "body", ins, outs)
 
 
@@ -497,7 +505,7 @@ _LOOP_FEEDS = [dict(x=f32(1, -2), n=i64(3)), dict(x=f32(1, -2), n=i64(0)), dict(
 def h_for(ch):
     body = _for_body("b_", with_iter=True)
     nodes = [oh.make_node("Loop", ["n", "", "x"], ["y"], body=body)]
-    g = oh.make_graph(nodes, "g_for", [vi("x", TP.FLOAT, [2]), vi("n", TP.INT64, [])], [vi("y", TP.FLOAT, None)])
+    g = oh.make_graph(nodes, "g_for", [vi("x", TP.FLOAT, [2]), vi("n", TP.INT64, [])], [vi("y", TP.FLOAT, [2])])
     return model(g)
 
 
@@ -505,20 +513,21 @@ def h_for(ch):
 def h_for_swap(ch):
     """Body returns its two carried inputs exchanged (parallel assignment needed)."""
     body = _for_body("b_", carried=("p", "q"), swap=True)
-    nodes = [oh.make_node("Loop", ["n", "", "x", "z"], ["y", "w"], body=body)]
+    nodes = [oh.make_node("Loop", ["n", "", "x", "z"], ["y0", "w0"], body=body),
+             oh.make_node("Neg", ["y0"], ["y"]), oh.make_node("Abs", ["w0"], ["w"])]
     g = oh.make_graph(nodes, "g_for_swap", [vi("x", TP.FLOAT, [2]), vi("z", TP.FLOAT, [2]), vi("n", TP.INT64, [])],
-                      [vi("y", TP.FLOAT, None), vi("w", TP.FLOAT, None)])
+                      [vi("y", TP.FLOAT, [2]), vi("w", TP.FLOAT, [2])])
     return model(g)
 
 
 def _while_body(prefix, limit_name):
-    ins = [vi(prefix + "i", TP.INT64, []), vi(prefix + "cin", TP.BOOL, []), vi(prefix + "s_in", TP.FLOAT, None)]
+    ins = [vi(prefix + "i", TP.INT64, []), vi(prefix + "cin", TP.BOOL, []), vi(prefix + "s_in", TP.FLOAT, [2])]
     nodes = [
         oh.make_node("Add", [prefix + "s_in", prefix + "s_in"], [prefix + "s_out"]),
         oh.make_node("ReduceSum", [prefix + "s_out"], [prefix + "tot"], keepdims=0),
         oh.make_node("Less", [prefix + "tot", limit_name], [prefix + "cout"]),
     ]
-    outs = [vi(prefix + "cout", TP.BOOL, []), vi(prefix + "s_out", TP.FLOAT, None)]
+    outs = [vi(prefix + "cout", TP.BOOL, []), vi(prefix + "s_out", TP.FLOAT, [2])]
     return oh.make_graph(nodes, prefix + "body", ins, outs)
 
 
@@ -530,7 +539,7 @@ def h_while(ch):
     cn, ci = _slot_nodes_inits(HELPERS["h_while"]["slots"], ch)
     body = _while_body("w_", "limit")
     nodes = cn + [oh.make_node("Loop", ["", "c0", "x"], ["y"], body=body)]
-    g = oh.make_graph(nodes, "g_while", [vi("x", TP.FLOAT, [2]), vi("c0", TP.BOOL, [])], [vi("y", TP.FLOAT, None)],
+    g = oh.make_graph(nodes, "g_while", [vi("x", TP.FLOAT, [2]), vi("c0", TP.BOOL, [])], [vi("y", TP.FLOAT, [2])],
                       initializer=ci)
     return model(g)
 
@@ -542,7 +551,7 @@ def h_for_while(ch):
     body = _while_body("w_", "lim")
     nodes = [const_node("lim", np.array(10.0, F)), oh.make_node("Loop", ["n", "c0", "x"], ["y"], body=body)]
     g = oh.make_graph(nodes, "g_for_while", [vi("x", TP.FLOAT, [2]), vi("n", TP.INT64, []), vi("c0", TP.BOOL, [])],
-                      [vi("y", TP.FLOAT, None)])
+                      [vi("y", TP.FLOAT, [2])])
     return model(g)
 
 
@@ -554,26 +563,28 @@ def h_two_loops(ch):
     nodes = [const_node("lim", np.array(30.0, F)), const_node("tru", np.array(True)),
              oh.make_node("Loop", ["n", "", "x"], ["m"], body=b1),
              oh.make_node("Loop", ["", "tru", "m"], ["y"], body=b2)]
-    g = oh.make_graph(nodes, "g_two_loops", [vi("x", TP.FLOAT, [2]), vi("n", TP.INT64, [])], [vi("y", TP.FLOAT, None)])
+    g = oh.make_graph(nodes, "g_two_loops", [vi("x", TP.FLOAT, [2]), vi("n", TP.INT64, [])], [vi("y", TP.FLOAT, [2])])
     return model(g)
 
 
-@_h("h_if_in_loop", {}, [dict(x=f32(1, -2), n=i64(k)) for k in (4, 0, 1)], tags=("while", "if"))
+@_h("h_if_in_loop", {}, [dict(x=f32(1, -2), n=i64(4)), dict(x=f32(1, -2), n=i64(0)), dict(x=f32(-5, 1), n=i64(2)),
+                      dict(x=f32(0.5, 0.25), n=i64(2))], tags=("while", "if"))
 def h_if_in_loop(ch):
-    then_g = oh.make_graph([oh.make_node("Sub", ["l_s_in", "x"], ["l_tv"])], "then", [], [vi("l_tv", TP.FLOAT, None)])
-    else_g = oh.make_graph([oh.make_node("Add", ["l_s_in", "two"], ["l_ev"])], "else", [], [vi("l_ev", TP.FLOAT, None)])
+    then_g = oh.make_graph([oh.make_node("Sub", ["l_s_in", "x"], ["l_tv"])], "then", [], [vi("l_tv", TP.FLOAT, [2])])
+    else_g = oh.make_graph([oh.make_node("Add", ["l_s_in", "two"], ["l_ev"])], "else", [], [vi("l_ev", TP.FLOAT, [2])])
     body = oh.make_graph(
         [oh.make_node("ReduceSum", ["l_s_in"], ["l_tot"], keepdims=0),
          oh.make_node("Greater", ["l_tot", "zero"], ["l_pos"]),
          oh.make_node("If", ["l_pos"], ["l_s_out"], then_branch=then_g, else_branch=else_g),
-         oh.make_node("Less", ["l_i", "nm1"], ["l_cout"])],
-        "body", [vi("l_i", TP.INT64, []), vi("l_cin", TP.BOOL, []), vi("l_s_in", TP.FLOAT, None)],
-        [vi("l_cout", TP.BOOL, []), vi("l_s_out", TP.FLOAT, None)])
+         oh.make_node("ReduceSum", ["l_s_out"], ["l_tot2"], keepdims=0),
+         oh.make_node("Less", ["l_tot2", "lim"], ["l_cout"])],
+        "body", [vi("l_i", TP.INT64, []), vi("l_cin", TP.BOOL, []), vi("l_s_in", TP.FLOAT, [2])],
+        [vi("l_cout", TP.BOOL, []), vi("l_s_out", TP.FLOAT, [2])])
     nodes = [const_node("zero", np.array(0.0, F)), const_node("two", np.array(2.0, F)), const_node("one", np.array(1, I)),
-             oh.make_node("Sub", ["n", "one"], ["nm1"]),
+             const_node("lim", np.array(1.5, F)),
              oh.make_node("Greater", ["n", "one"], ["c0"]),
              oh.make_node("Loop", ["", "c0", "x"], ["y"], body=body)]
-    g = oh.make_graph(nodes, "g_if_in_loop", [vi("x", TP.FLOAT, [2]), vi("n", TP.INT64, [])], [vi("y", TP.FLOAT, None)])
+    g = oh.make_graph(nodes, "g_if_in_loop", [vi("x", TP.FLOAT, [2]), vi("n", TP.INT64, [])], [vi("y", TP.FLOAT, [2])])
     return model(g)
 
 
@@ -582,11 +593,11 @@ def h_if_in_loop(ch):
 def h_loop_in_if(ch):
     body = _while_body("w_", "lim")
     then_g = oh.make_graph([const_node("tru", np.array(True)), oh.make_node("Loop", ["", "tru", "x"], ["tv"], body=body)],
-                           "then", [], [vi("tv", TP.FLOAT, None)])
+                           "then", [], [vi("tv", TP.FLOAT, [2])])
     else_g = oh.make_graph([oh.make_node("Neg", ["x"], ["ev"])], "else", [], [vi("ev", TP.FLOAT, None)])
     nodes = [const_node("lim", np.array(10.0, F)),
              oh.make_node("If", ["c"], ["y"], then_branch=then_g, else_branch=else_g)]
-    g = oh.make_graph(nodes, "g_loop_in_if", [vi("x", TP.FLOAT, [2]), vi("c", TP.BOOL, [])], [vi("y", TP.FLOAT, None)])
+    g = oh.make_graph(nodes, "g_loop_in_if", [vi("x", TP.FLOAT, [2]), vi("c", TP.BOOL, [])], [vi("y", TP.FLOAT, [2])])
     return model(g)
 
 
@@ -639,9 +650,9 @@ def h_types(ch):
              oh.make_node("Identity", ["u"], ["uu"]), oh.make_node("Identity", ["s"], ["ss"]),
              oh.make_node("ReduceSum", ["a"], ["sa"], keepdims=0)]
     ins = [vi("a", TP.DOUBLE, ["N"]), vi("h", TP.FLOAT16, [None]), vi("u", TP.UINT8, [2]),
-           onnx.helper.make_value_info("s", oh.make_tensor_type_proto(TP.STRING, None))]
+           vi("s", TP.STRING, [2])]
     outs = [vi("na", TP.DOUBLE, ["N"]), vi("ah", TP.FLOAT16, [None]), vi("uu", TP.UINT8, [2]),
-            onnx.helper.make_value_info("ss", oh.make_tensor_type_proto(TP.STRING, None)), vi("sa", TP.DOUBLE, [])]
+            vi("ss", TP.STRING, [2]), vi("sa", TP.DOUBLE, [])]
     g = oh.make_graph(nodes, "g_types", ins, outs)
     return model(g)
 
@@ -703,7 +714,7 @@ def x_scan(ch):
                          [vi("acc_o", TP.FLOAT, [2]), vi("sc", TP.FLOAT, [2])])
     nodes = [const_node("z", f32(0, 0)),
              oh.make_node("Scan", ["z", "x"], ["fin", "ys"], body=body, num_scan_inputs=1)]
-    g = oh.make_graph(nodes, "g_scan", [vi("x", TP.FLOAT, [None, 2])], [vi("fin", TP.FLOAT, None), vi("ys", TP.FLOAT, None)])
+    g = oh.make_graph(nodes, "g_scan", [vi("x", TP.FLOAT, [None, 2])], [vi("fin", TP.FLOAT, None), vi("ys", TP.FLOAT, [None, 2])])
     return model(g)
 
 
@@ -719,12 +730,88 @@ def x_sparse(ch):
     return model(g)
 
 
-@_h("x_loop_scan_out", {}, _LOOP_FEEDS, tags=("outside", "scan-output"), in_class=False)
+@_h("x_loop_scan_out", {}, [dict(x=f32(0.25, 0.25), n=i64(1)), dict(x=f32(3, 3), n=i64(1)), dict(x=f32(20, 0), n=i64(1))], tags=("outside", "scan-output"), in_class=False)
 def x_loop_scan_out(ch):
-    body = _for_body("b_", with_iter=True)
-    body.node.append(oh.make_node("Identity", ["b_a_out"], ["b_scan"]))
-    body.output.append(vi("b_scan", TP.FLOAT, None))
-    nodes = [oh.make_node("Loop", ["n", "", "x"], ["y", "ys"], body=body)]
+    body = _while_body("w_", "lim")
+    body.node.append(oh.make_node("Identity", ["w_s_out"], ["w_scan"]))
+    body.output.append(vi("w_scan", TP.FLOAT, [2]))
+    nodes = [const_node("lim", np.array(10.0, F)), oh.make_node("Greater", ["n", "n"], ["nn"]), oh.make_node("Not", ["nn"], ["c0"]),
+             oh.make_node("Loop", ["", "c0", "x"], ["y", "ys"], body=body)]
     g = oh.make_graph(nodes, "g_loop_scan", [vi("x", TP.FLOAT, [2]), vi("n", TP.INT64, [])],
-                      [vi("y", TP.FLOAT, None), vi("ys", TP.FLOAT, None)])
+                      [vi("y", TP.FLOAT, [2]), vi("ys", TP.FLOAT, [None, 2])])
+    return model(g)
+
+
+@_h("h_only_ops", {"k": ("f:2.5", ["f:2.5", "f:-1", "f:nan", "f:[2]"])}, [dict(x=v, z=w) for v, w in zip(_X2, reversed(_X2))],
+    tags=("ops", "const"))
+def h_only_ops(ch):
+    """Every node has a Python operator counterpart."""
+    cn, ci = _slot_nodes_inits(HELPERS["h_only_ops"]["slots"], ch)
+    nodes = cn + [oh.make_node("Add", ["x", "z"], ["s"]), oh.make_node("Mul", ["s", "k"], ["p"]),
+                  oh.make_node("Sub", ["p", "x"], ["d"]), oh.make_node("Div", ["d", "k"], ["q"]),
+                  oh.make_node("Greater", ["x", "z"], ["g"]), oh.make_node("LessOrEqual", ["x", "z"], ["le"]),
+                  oh.make_node("Less", ["x", "z"], ["lt"]), oh.make_node("Equal", ["x", "z"], ["eq"]),
+                  oh.make_node("And", ["g", "lt"], ["an"]), oh.make_node("Or", ["an", "eq"], ["o"]),
+                  oh.make_node("GreaterOrEqual", ["x", "z"], ["ge"])]
+    g = oh.make_graph(nodes, "g_only_ops", [vi("x", TP.FLOAT, [2]), vi("z", TP.FLOAT, [2])],
+                      [vi("q", TP.FLOAT, None), vi("o", TP.BOOL, None), vi("le", TP.BOOL, None), vi("ge", TP.BOOL, None),
+                       vi("g", TP.BOOL, None), vi("lt", TP.BOOL, None)],
+                      initializer=ci)
+    return model(g)
+
+
+@_h("h_matmul", {}, [dict(x=a, z=b) for a, b in zip(_M22, reversed(_M22))], tags=("ops",))
+def h_matmul(ch):
+    nodes = [oh.make_node("MatMul", ["x", "z"], ["mm"]), oh.make_node("Pow", ["mm", "z"], ["pw"]),
+             oh.make_node("Abs", ["pw"], ["y"])]
+    g = oh.make_graph(nodes, "g_matmul", [vi("x", TP.FLOAT, [2, 2]), vi("z", TP.FLOAT, [2, 2])], [vi("y", TP.FLOAT, None)])
+    return model(g)
+
+
+@_h("h_while_swap", {}, [dict(x=f32(1, -2), z=f32(7, 8), n=i64(k)) for k in (3, 0, 1, 2)], tags=("while", "swap"))
+def h_while_swap(ch):
+    """Condition-driven loop whose body returns its two carried inputs exchanged (its own counter, no iteration number)."""
+    body = oh.make_graph(
+        [oh.make_node("Add", ["k_c", "one"], ["k_c2"]), oh.make_node("Less", ["k_c2", "n"], ["k_cout"])],
+        "body", [vi("k_i", TP.INT64, []), vi("k_cin", TP.BOOL, []), vi("k_p", TP.FLOAT, [2]), vi("k_q", TP.FLOAT, [2]),
+                 vi("k_c", TP.INT64, [])],
+        [vi("k_cout", TP.BOOL, []), vi("k_q", TP.FLOAT, [2]), vi("k_p", TP.FLOAT, [2]), vi("k_c2", TP.INT64, [])])
+    nodes = [const_node("one", np.array(1, I)), const_node("zero", np.array(0, I)),
+             oh.make_node("Greater", ["n", "zero"], ["c0"]),
+             oh.make_node("Loop", ["", "c0", "x", "z", "zero"], ["y0", "w0", "cnt"], body=body),
+             oh.make_node("Neg", ["y0"], ["y"]), oh.make_node("Abs", ["w0"], ["w"])]
+    g = oh.make_graph(nodes, "g_while_swap", [vi("x", TP.FLOAT, [2]), vi("z", TP.FLOAT, [2]), vi("n", TP.INT64, [])],
+                      [vi("y", TP.FLOAT, [2]), vi("w", TP.FLOAT, [2])])
+    return model(g)
+
+
+@_h("h_while_plain", {}, [dict(x=f32(0.25, 0.25), c0=np.array(True)), dict(x=f32(0.25, 0.25), c0=np.array(False)),
+                          dict(x=f32(9, 9), c0=np.array(True))], tags=("while", "sibling-names"))
+def h_while_plain(ch):
+    """Two condition-driven loops in sequence whose bodies share value names; no iteration number used."""
+    b1 = _while_body("", "lim")
+    b2 = _while_body("", "lim2")
+    nodes = [const_node("lim", np.array(10.0, F)), const_node("lim2", np.array(100.0, F)),
+             oh.make_node("Loop", ["", "c0", "x"], ["m"], body=b1),
+             oh.make_node("ReduceSum", ["m"], ["ms"], keepdims=0),
+             oh.make_node("Less", ["ms", "lim2"], ["c1"]),
+             oh.make_node("Loop", ["", "c1", "m"], ["y"], body=b2)]
+    g = oh.make_graph(nodes, "g_while_plain", [vi("x", TP.FLOAT, [2]), vi("c0", TP.BOOL, [])], [vi("y", TP.FLOAT, [2])])
+    return model(g)
+
+
+@_h("h_while_iter", {}, [dict(x=f32(1, -2), n=i64(k)) for k in (4, 0, 1)], tags=("while", "iter-in-while"))
+def h_while_iter(ch):
+    """Condition-driven loop (no trip count) whose body reads the iteration number."""
+    body = oh.make_graph(
+        [oh.make_node("Cast", ["j_i"], ["j_fi"], to=TP.FLOAT),
+         oh.make_node("Add", ["j_s_in", "j_fi"], ["j_s_out"]),
+         oh.make_node("Less", ["j_i", "nm1"], ["j_cout"])],
+        "body", [vi("j_i", TP.INT64, []), vi("j_cin", TP.BOOL, []), vi("j_s_in", TP.FLOAT, [2])],
+        [vi("j_cout", TP.BOOL, []), vi("j_s_out", TP.FLOAT, [2])])
+    nodes = [const_node("one", np.array(1, I)), const_node("zero", np.array(0, I)),
+             oh.make_node("Sub", ["n", "one"], ["nm1"]),
+             oh.make_node("Greater", ["n", "zero"], ["c0"]),
+             oh.make_node("Loop", ["", "c0", "x"], ["y"], body=body)]
+    g = oh.make_graph(nodes, "g_while_iter", [vi("x", TP.FLOAT, [2]), vi("n", TP.INT64, [])], [vi("y", TP.FLOAT, [2])])
     return model(g)
